@@ -19,6 +19,13 @@ CLAIMED = {
              'model\'s field list. Held on the executions observed only.',
         note='Trusted: vf/model/encode.py (field order / packing rules listed in evidence.assumptions), the generator\'s '
              'promise of textually disjoint alternatives.'),
+    'C11': dict(
+        category='exploration', design_ref='DESIGN.md §3 C11',
+        technique='runtime monitoring: byte-model oracle over real CLI runs of generated data/string/fill programs',
+        text='Generated programs of .byte/.2byte/.4byte/.8byte lists, quoted strings with escapes, .cstr/.asciiz, embedded '
+             'strings, .fill/.zero/.zerountil are assembled by the real CLI under both endiannesses and terminator values; every '
+             'line\'s bytes in the image must equal the byte model. One open known finding (character literal first in a list).',
+        note='Trusted: the byte rules in vf/oracles/c11.py + vf/model/layout.py; strings avoid ";" and unescaped delimiters.'),
     'C07': dict(
         category='exploration', design_ref='DESIGN.md §3 C07',
         technique='runtime monitoring: reference-model oracle (exact-arithmetic evaluator + independent grammar recogniser) '
